@@ -12,6 +12,29 @@ namespace Leptos.RView
 open Leptos.Keyed
 open Leptos.Reactive (Expr)
 
+/-- expressions without untracked reads (the class of the theorems) have nothing to resolve -/
+theorem resolve_eq (ls : List Nat) (key : Int) : ∀ (x : Expr), x.noUntracked = true → x.resolve ls key = x
+  | .lit _, _ => rfl
+  | .rd true _, _ => rfl
+  | .rd false _, h => by simp [Reactive.Expr.noUntracked] at h
+  | .add a b, h => by
+    simp only [Reactive.Expr.noUntracked, Bool.and_eq_true] at h
+    simp only [Reactive.Expr.resolve, resolve_eq ls key a h.1, resolve_eq ls key b h.2]
+  | .mulc _ a, h => by
+    simp only [Reactive.Expr.noUntracked] at h
+    simp only [Reactive.Expr.resolve, resolve_eq ls key a h]
+  | .ite c t e, h => by
+    simp only [Reactive.Expr.noUntracked, Bool.and_eq_true] at h
+    simp only [Reactive.Expr.resolve, resolve_eq ls key c h.1.1, resolve_eq ls key t h.1.2, resolve_eq ls key e h.2]
+  | .seq a b, h => by
+    simp only [Reactive.Expr.noUntracked, Bool.and_eq_true] at h
+    simp only [Reactive.Expr.resolve, resolve_eq ls key a h.1, resolve_eq ls key b h.2]
+  | .wr _ a, h => by
+    simp only [Reactive.Expr.noUntracked] at h
+    simp only [Reactive.Expr.resolve, resolve_eq ls key a h]
+
+theorem St.res_eq (st : St) {x : Expr} (h : x.noUntracked = true) : st.res x = x := resolve_eq _ _ x h
+
 structure KOK (ks : KState) : Prop where
   wf : Wf ks
   mounted : Mounted [] [] ks
@@ -131,9 +154,9 @@ theorem wf_forKeyed {k : Nat} {sel : Expr} {lists : List (List Nat)} (h : (View.
 
 theorem build_forKeyed (sel : Expr) (lists : List (List Nat)) (st : St) :
     build (.forKeyed sel lists) st =
-      (.forK (newEff st sel).1 sel lists (buildFor (newEff st sel).2.2 (listAt lists (newEff st sel).2.1)).1
-          (buildFor (newEff st sel).2.2 (listAt lists (newEff st sel).2.1)).2.1,
-       (buildFor (newEff st sel).2.2 (listAt lists (newEff st sel).2.1)).2.2.spawn (newEff st sel).1) := rfl
+      (.forK (newEff st (st.res sel)).1 sel lists (buildFor (newEff st (st.res sel)).2.2 (listAt lists (newEff st (st.res sel)).2.1)).1
+          (buildFor (newEff st (st.res sel)).2.2 (listAt lists (newEff st (st.res sel)).2.1)).2.1,
+       (buildFor (newEff st (st.res sel)).2.2 (listAt lists (newEff st (st.res sel)).2.1)).2.2.spawn (newEff st (st.res sel)).1) := rfl
 
 theorem rerunIn_forK_self (e : Nat) (v : Int) (sel : Expr) (lists : List (List Nat)) (ks : KState)
     (texts : List (Nat × Nat)) (st : St) :
